@@ -46,6 +46,8 @@ def required_cells(tier):
             'search-path-spelling:dot', 'search-path-shape:empty-list:nothing', 'search-path-shape:empty-tuple:nothing',
             'search-path-shape:nothing-there:nothing', 'search-path-shape:second-entry:found',
             'search-path-shape:first-entry:found', 'search-path-shape:tuple:found',
+            'search-path-shape:plain-directories-named-like-the-packages-come-first:found',
+            'search-path-shape:plain-directories-named-like-the-packages-come-last:found',
             'import:requested-file-wins-a-name-conflict', 'import:zip-archive:ok', 'import:zip-archive:raises',
             'resolve:through-a-symlink-below-the-root', 'import:submodule-name-rebound-by-the-package']
 
@@ -226,11 +228,23 @@ def check_tree(ctx, idx, seed):
         # ---- shapes of the search path itself: empty (list / tuple), a directory that holds nothing, several entries
         empty_dir = root + '_empty'
         os.mkdir(empty_dir)
-        for name in rng.sample(names, min(4, len(names))) + ['os', 'json', 'xdoctest']:
+        shadow_dir = root + '_shadow'
+        os.mkdir(shadow_dir)
+        dotted_found = [n for n in names if '.' in n and oracle(root, n)[0]]
+        for name in rng.sample(names, min(4, len(names))) + rng.sample(dotted_found, min(2, len(dotted_found))) + ['os', 'json', 'xdoctest']:
             exp, cls = oracle(root, name)
-            for shape, sps, want in [('empty-list', [], None), ('empty-tuple', (), None), ('nothing-there', [empty_dir], None),
-                                     ('second-entry', [empty_dir, root], exp), ('first-entry', [root, empty_dir], exp),
-                                     ('tuple', (root,), exp)]:
+            shapes = [('empty-list', [], None), ('empty-tuple', (), None), ('nothing-there', [empty_dir], None),
+                      ('second-entry', [empty_dir, root], exp), ('first-entry', [root, empty_dir], exp),
+                      ('tuple', (root,), exp)]
+            if '.' in name and exp:
+                # an earlier entry holds plain directories (data, build output) named like the parent packages: a regular
+                # package further down the search path wins over directories without __init__.py
+                os.makedirs(os.path.join(shadow_dir, *name.split('.')[:-1]), exist_ok=True)
+                with open(os.path.join(shadow_dir, *(name.split('.')[:-1] + ['notes.txt'])), 'w') as f:
+                    f.write('x\n')
+                shapes.append(('plain-directories-named-like-the-packages-come-first', [shadow_dir, root], exp))
+                shapes.append(('plain-directories-named-like-the-packages-come-last', [root, shadow_dir], exp))
+            for shape, sps, want in shapes:
                 ctx.evaluation()
                 case = {'index': idx, 'case_seed': seed, 'name': name, 'search_path_shape': shape}
                 for hide_main in (False, True):
